@@ -6,6 +6,7 @@ import (
 	"go/constant"
 	"go/token"
 	"go/types"
+	"regexp"
 	"strings"
 
 	"golang.org/x/tools/go/cfg"
@@ -351,6 +352,94 @@ func (la *lenAnalyzer) lenArgOf(e ast.Expr, use token.Pos) (ast.Expr, bool) {
 	return nil, false
 }
 
+// submatchLen: e names the result of (*regexp.Regexp).FindStringSubmatch on a regexp whose pattern is a constant of the
+// source; the number of elements of a non-nil result.
+func (la *lenAnalyzer) submatchLen(e ast.Expr, use token.Pos) (int, bool) {
+	rhs := la.localDef(e, use)
+	if rhs == nil {
+		return 0, false
+	}
+	ce, ok := ast.Unparen(rhs).(*ast.CallExpr)
+	if !ok {
+		return 0, false
+	}
+	f := core.Callee(la.info, ce)
+	if f == nil || core.FullName(f) != "(regexp.Regexp).FindStringSubmatch" {
+		return 0, false
+	}
+	sel := ast.Unparen(ce.Fun).(*ast.SelectorExpr)
+	pat, ok := regexpPattern(la.c, la.info, sel.X, la.localDef(sel.X, use))
+	if !ok {
+		return 0, false
+	}
+	re, err := regexp.Compile(pat)
+	if err != nil {
+		return 0, false
+	}
+	return re.NumSubexp() + 1, true
+}
+
+// regexpPattern: the constant pattern the regexp named by recv was compiled from. localInit is the defining expression
+// when recv is a local with a single definition; otherwise recv must be a package-level variable that is initialised
+// once and never assigned or address-taken in its package.
+func regexpPattern(c *core.Ctx, info0 *types.Info, recv ast.Expr, localInit ast.Expr) (string, bool) {
+	init := localInit
+	if init != nil {
+	} else if o := identObj(info0, recv); o != nil && c != nil {
+		// a package-level variable with one initialiser and no assignment anywhere in its package
+		if pkg := c.PkgOf(o.Pkg()); pkg != nil {
+			assigned := false
+			for _, file := range pkg.Syntax {
+				ast.Inspect(file, func(n ast.Node) bool {
+					switch x := n.(type) {
+					case *ast.ValueSpec:
+						for i, nm := range x.Names {
+							if pkg.TypesInfo.Defs[nm] == o && len(x.Values) == len(x.Names) {
+								init = x.Values[i]
+							}
+						}
+					case *ast.AssignStmt:
+						for _, l := range x.Lhs {
+							if identObj(pkg.TypesInfo, l) == o {
+								assigned = true
+							}
+						}
+					case *ast.UnaryExpr:
+						if x.Op == token.AND && identObj(pkg.TypesInfo, x.X) == o {
+							assigned = true
+						}
+					}
+					return true
+				})
+			}
+			if assigned {
+				init = nil
+			}
+		}
+	}
+	mc, ok := ast.Unparen(init).(*ast.CallExpr)
+	if init == nil || !ok || len(mc.Args) != 1 {
+		return "", false
+	}
+	var info *types.Info = info0
+	if _, known := info.Types[mc.Args[0]]; !known {
+		if o := identObj(info0, recv); o != nil {
+			if pkg := c.PkgOf(o.Pkg()); pkg != nil {
+				info = pkg.TypesInfo
+			}
+		}
+	}
+	g := core.Callee(info, mc)
+	if g == nil || (core.FullName(g) != "regexp.MustCompile" && core.FullName(g) != "regexp.MustCompilePOSIX") {
+		return "", false
+	}
+	tv, ok := info.Types[mc.Args[0]]
+	if !ok || tv.Value == nil || tv.Value.Kind() != constant.String {
+		return "", false
+	}
+	return constant.StringVal(tv.Value), true
+}
+
 // condFacts: facts implied when cond evaluates to truth.
 func (la *lenAnalyzer) condFacts(cond ast.Expr, truth bool) lenState {
 	out := lenState{}
@@ -393,6 +482,25 @@ func (la *lenAnalyzer) condFacts(cond ast.Expr, truth bool) lenState {
 			op := x.Op
 			var s ast.Expr
 			var n int
+			// `m != nil` where m is the result of FindStringSubmatch on a regexp compiled from a constant:
+			// a non-nil result has exactly 1+NumSubexp elements
+			if op == token.EQL || op == token.NEQ {
+				subj := x.X
+				if isNilIdent(subj) {
+					subj = x.Y
+				} else if !isNilIdent(x.Y) {
+					subj = nil
+				}
+				if subj != nil && (op == token.NEQ) == truth {
+					if n, ok := la.submatchLen(subj, x.Pos()); ok {
+						if k, ok := keyOf(la.info, subj); ok {
+							k.path = normPath(k.path)
+							out[k] = lenIv{n, n, nil}
+							return out
+						}
+					}
+				}
+			}
 			if a, ok := la.lenArgOf(x.X, x.Pos()); ok {
 				if c, ok := constInt(la.info, x.Y); ok {
 					s, n = a, c
@@ -523,10 +631,25 @@ func (la *lenAnalyzer) analyze(body *ast.BlockStmt) func(n ast.Node, k sliceKey)
 		}
 		return st
 	}
+	// `switch len(S) { case 1: ... }`: go/cfg ends a block with the bare case value; read it as `len(S) == 1`
+	caseTag := map[ast.Expr]ast.Expr{}
+	ast.Inspect(body, func(n ast.Node) bool {
+		if sw, ok := n.(*ast.SwitchStmt); ok && sw.Tag != nil {
+			for _, cl := range sw.Body.List {
+				for _, v := range cl.(*ast.CaseClause).List {
+					caseTag[v] = sw.Tag
+				}
+			}
+		}
+		return true
+	})
 	edgeState := func(b *cfg.Block, succIdx int) lenState {
 		st := transfer(b)
 		if len(b.Succs) == 2 && len(b.Nodes) > 0 {
 			if cond, ok := b.Nodes[len(b.Nodes)-1].(ast.Expr); ok {
+				if tag, isCase := caseTag[cond]; isCase {
+					cond = &ast.BinaryExpr{X: tag, OpPos: cond.Pos(), Op: token.EQL, Y: cond}
+				}
 				for k, v := range la.condFacts(cond, succIdx == 0) {
 					if o, ok := st[k]; ok {
 						st[k] = o.meet(v)
